@@ -176,7 +176,7 @@ def run(unit_name, text, table, workdir, rlimit=None, extra=(), count_obligation
                         nm = m.group(2)
                         short = nm.split('::', 1)[1] if '::' in nm else nm
                         cur = res.fns.get(short)
-                elif cur is not None and '(location ' in ln:
-                    cur.obligations += ln.count('(location ')
+                elif cur is not None and '(location' in ln:
+                    cur.obligations += len(re.findall(r'(?<![A-Za-z_])\(location\b', ln))
         shutil.rmtree(logdir, ignore_errors=True)
     return res
